@@ -36,8 +36,10 @@ import (
 	epochstypes "github.com/Sifchain/sifnode/x/epochs/types"
 	ethbridgetypes "github.com/Sifchain/sifnode/x/ethbridge/types"
 	margintypes "github.com/Sifchain/sifnode/x/margin/types"
+	oracletypes "github.com/Sifchain/sifnode/x/oracle/types"
 	trtypes "github.com/Sifchain/sifnode/x/tokenregistry/types"
 	"github.com/cosmos/cosmos-sdk/codec"
+	sdk "github.com/cosmos/cosmos-sdk/types"
 	"github.com/gogo/protobuf/proto"
 	abci "github.com/tendermint/tendermint/abci/types"
 )
@@ -376,6 +378,77 @@ func emitQueries(out *Out, cdc codec.Codec, what string, a, b *sifapp.SifchainAp
 	}
 }
 
+// ---- raw store comparison ------------------------------------------------------------------------
+// The imported chain against the ORIGINAL chain, key by key, for the record collections the genesis format
+// carries (not export vs re-export: a record dropped by the export is missing from both exports).
+
+type storeColl struct {
+	module, store, name string
+	prefix              []byte
+}
+
+var carriedCollections = []storeColl{
+	{"admin", admintypes.StoreKey, "accounts", []byte{0x01}},
+	{"clp", clptypes.StoreKey, "pools", []byte{0x00}},
+	{"clp", clptypes.StoreKey, "providers", []byte{0x01}},
+	{"clp", clptypes.StoreKey, "buckets", []byte(clptypes.RewardsBucketKeyPrefix)},
+	{"dispensation", disptypes.StoreKey, "records.pending", []byte{0x00}},
+	{"dispensation", disptypes.StoreKey, "records.completed", []byte{0x11}},
+	{"dispensation", disptypes.StoreKey, "records.failed", []byte{0x12}},
+	{"dispensation", disptypes.StoreKey, "distributions", []byte{0x01}},
+	{"dispensation", disptypes.StoreKey, "claims", []byte{0x02}},
+	{"ethbridge", ethbridgetypes.StoreKey, "blacklist", []byte{0x02}},
+	{"margin", margintypes.StoreKey, "positions", []byte{0x01}},
+	{"oracle", oracletypes.StoreKey, "prophecies", []byte{0x02}},
+	{"tokenregistry", trtypes.StoreKey, "registry", []byte{0x01}},
+}
+
+// dumpPrefix lists key=value (hex) of the committed state under a prefix, in store order.
+func dumpPrefix(app *sifapp.SifchainApp, c storeColl) []string {
+	key := app.GetKey(c.store)
+	if key == nil {
+		return []string{"no-such-store"}
+	}
+	st := app.CommitMultiStore().GetKVStore(key)
+	it := sdk.KVStorePrefixIterator(st, c.prefix)
+	defer it.Close()
+	var out []string
+	for ; it.Valid(); it.Next() {
+		out = append(out, hex.EncodeToString(it.Key())+"="+hex.EncodeToString(it.Value()))
+	}
+	return out
+}
+
+func emitStores(out *Out, what string, a, b *sifapp.SifchainApp) {
+	for _, c := range carriedCollections {
+		da, db := dumpPrefix(a, c), dumpPrefix(b, c)
+		diff := "-"
+		if len(da) != len(db) {
+			diff = fmt.Sprintf("entries%d/%d", len(da), len(db))
+		} else {
+			for i := range da {
+				if da[i] != db[i] {
+					k := da[i]
+					if len(k) > 60 {
+						k = k[:60]
+					}
+					diff = "entry" + fmt.Sprint(i) + ":" + k
+					break
+				}
+			}
+		}
+		ja, jb := []byte(strings.Join(da, "\n")), []byte(strings.Join(db, "\n"))
+		if diff != "-" {
+			if dir := argAfter("-out"); dir != "" {
+				base := filepath.Join(dir, fmt.Sprintf("differs-%s-store-%s-%s-%d", what, c.module, c.name, out.N))
+				os.WriteFile(base+"-original.txt", ja, 0o644)
+				os.WriteFile(base+"-imported.txt", jb, 0o644)
+			}
+		}
+		out.Emit(fmt.Sprintf("chk docEq tag=%s.store.%s.%s entries=%d diff=%s | %s %s", what, c.module, c.name, len(da), sanitize(diff), digest(ja), digest(jb)), "true", "store", len(da) > 0)
+	}
+}
+
 // ---- (a) histories ------------------------------------------------------------------------------
 
 func roundTripHistory(out *Out, rng *Rng, idx int, obs map[string]int) {
@@ -413,6 +486,7 @@ func roundTripHistory(out *Out, rng *Rng, idx int, obs map[string]int) {
 		dists = append(dists, d.name)
 	}
 	emitQueries(out, cdc, what, p.C.App, b.App, queryCases(pools, addrs, dists), obs)
+	emitStores(out, what, p.C.App, b.App)
 	// non-Sifchain sections: informational only
 	for m := range secA {
 		isSif := false
